@@ -70,7 +70,7 @@ pub fn one_effort(m: &LinearModel, tol: f64, effort: usize, tags: &mut Vec<Strin
             let nfree = m.variables().iter().filter(|n| matches!(m.domain().get(*n).map(|d| *d.get_type()), Some(VariableType::Real(_, _)))).count();
             let nslack = v.variables.iter().filter(|n| n.starts_with("$sl_")).count();
             let nsurplus = v.variables.iter().filter(|n| n.starts_with("$su_")).count();
-            let nbound = v.rows.len() - m.constraints().len();
+            let nbound = v.rows.len().saturating_sub(m.constraints().len());
             let nflip = m.constraints().iter().filter(|r| r.rhs() < 0.0).count(); // exact sign test since /repo 947e0f0
             if m.constraints().iter().any(|r| r.rhs() < 0.0 && !rooc::verif_hooks::float_lt_hook(r.rhs(), 0.0)) { tags.push("regression:rhs-negative-inside-old-tolerance-band".into()); }
             if nfree > 0 { tags.push("rule:free-split".into()); }
@@ -201,7 +201,7 @@ pub fn generate(seed: u64, n: usize, thorough: bool, _corpus: Option<&str>) -> V
         }
     }
     // --- random beyond, all data classes
-    let classes = [DataClass::SmallInt, DataClass::Dyadic, DataClass::Decimal, DataClass::TolBoundary, DataClass::Extreme];
+    let classes = [DataClass::SmallInt, DataClass::Dyadic, DataClass::Decimal, DataClass::TolBoundary, DataClass::Extreme, DataClass::Large];
     for i in 0..n {
         let class = classes[i % classes.len()];
         let s = gen_std::random_spec(&mut r, 5, 5, &gen_std::VKINDS7, class);
@@ -221,6 +221,23 @@ pub fn generate(seed: u64, n: usize, thorough: bool, _corpus: Option<&str>) -> V
                 cases.push(one(&m, tol, vec!["stream:rhs-tolerance-boundary".into(), "regression:C13-rhs-sign-within-tolerance".into(), DataClass::TolBoundary.tag().into()]));
             }
         }
+    }
+    // --- contradiction rows: a feasible (planted) model plus a row in which no variable appears and whose
+    // comparison is false (`0 = 5`, `0 <= -1`, `0 >= 2`, also under free variables): the original is infeasible, so
+    // the standard form must be infeasible too — if the conversion loses the row, the oracle's backward check maps a
+    // feasible standard-form point to a point violating it
+    for i in 0..(if thorough { 400 } else { 60 }) {
+        let kinds: Vec<VKind> = (0..1 + r.below(3)).map(|_| *r.pick(&gen_std::VKINDS4)).collect();
+        let rk: Vec<Comparison> = (0..r.below(3)).map(|_| *r.pick(&gen_std::RKINDS)).collect();
+        let opt = if r.chance(1, 2) { OptimizationType::Min } else { OptimizationType::Max };
+        let mut s = gen_std::spec(&mut r, &kinds, &rk, opt, DataClass::SmallInt);
+        let zero_row = vec![0.0; kinds.len()];
+        let (cmp, rhs) = match i % 4 { 0 | 1 => (Comparison::Equal, [5.0, -3.0, 0.5, -1.0][r.below(4)]), 2 => (Comparison::LessOrEqual, -1.0 - r.below(3) as f64), _ => (Comparison::GreaterOrEqual, 1.0 + r.below(3) as f64) };
+        let at = r.below(s.rows.len() + 1);
+        s.rows.insert(at, (zero_row, cmp, rhs));
+        let mut tags = spec_tags(&s, "contradiction-row");
+        tags.push(format!("contradiction:{}", sx::cmp(cmp)));
+        cases.push(one(&gen_std::build(&s), tol, tags));
     }
     malformed(&mut r, tol, &mut cases);
     cases
